@@ -12,6 +12,18 @@ C02 driver.
       texts = `f.r=p.p` (`f.r=-` without parents) joined by `,` in commit order then tree order, `-` if none
       check = `ok` | `wrong:<n>:<m>:<k>` (wrong parents, unreferenced versions, invalid references)
 
+  recb <commit>|<commit>|…         the same history through the literal merged_ids / changes
+      bookkeeping (`buildB`); entries carry a 7th field `r` = 1 iff the real `iter_changes`
+      reported the id: `f.k.p.n.x.c.r`
+  reply: `<H:T|F> <R:T|F> <invs> <texts> <check>` (R = `repsOk`: reported iff differs) or
+      `undefined` when an unreported id is in merged_ids with another kind than the basis
+
+  chk <rec>|<rec>|…                an arbitrary (possibly inconsistent) repository, OLDEST first
+      rec = `<id>;<parents>;<inv>;<texts>`; inv = `f=rev,…` or `-`; texts = `f=p.p,f=-,…` or `-`
+  reply: `W:<f.r=stored>expected,…|-> U:<f.r,…|->` (wrong parents with the stored and the
+      expected parent lists, unreferenced text versions; both sorted by (f, r)); a key of the
+      index without a text has stored = `M`
+
   heads <graph> <cands>             one file's graph `r=p.p,r=-,…` OLDEST first; cands `c,c`
   reply: heads in candidate order (`-` = none)
 
@@ -74,7 +86,76 @@ def parseGraphEntry (s : String) : Option ((FileId × Rev) × List Rev) :=
     pure ((0, r), ps)
   | _ => none
 
+def parseEntryB (s : String) : Option ((FileId × Attr) × Bool) :=
+  match s.splitOn "." with
+  | [f, k, p, n, x, c, r] =>
+    match parseEntry (".".intercalate [f, k, p, n, x, c]), r with
+    | some e, "0" => some (e, false)
+    | some e, "1" => some (e, true)
+    | _, _ => none
+  | _ => none
+
+def parseCommitB (s : String) : Option (Commit × List FileId) :=
+  match s.splitOn ";" with
+  | [i, ps, t] => do
+    let i ← i.toNat?
+    let ps ← parseNats "," ps
+    let es ← if t == "-" then some [] else (t.splitOn "/").mapM parseEntryB
+    pure (⟨i, ps, es.map (·.1)⟩, (es.filter (·.2)).map (·.1.1))
+  | _ => none
+
+def parseKV (sep : String) (s : String) : Option (Nat × List Nat) :=
+  match s.splitOn "=" with
+  | [f, v] => do
+    let f ← f.toNat?
+    let v ← parseNats sep v
+    pure (f, v)
+  | _ => none
+
+def parseInvItem (e : String) : Option (FileId × Entry) :=
+  match (e.splitOn "=").mapM String.toNat? with
+  | some [f, r] => some (f, ⟨⟨0, 0, .dir⟩, r⟩)
+  | _ => none
+
+def parseRec (s : String) : Option Rec :=
+  match s.splitOn ";" with
+  | [i, ps, inv, ts] => do
+    let i ← i.toNat?
+    let ps ← parseNats "," ps
+    let inv ← if inv == "-" then some [] else (inv.splitOn ",").mapM parseInvItem
+    let ts ← if ts == "-" then some [] else (ts.splitOn ",").mapM (parseKV ".")
+    pure ⟨i, ps, inv, ts⟩
+  | _ => none
+
+def keyLe (a b : FileId × Rev) : Bool := a.1 < b.1 || (a.1 == b.1 && a.2 ≤ b.2)
+
+def showChk (st : State) : String :=
+  let idx := expIndex st
+  let g := textsOf st
+  let wrong := (idx.filter fun k => g.lookup k.1 != some k.2).mergeSort fun a b => keyLe a.1 b.1
+  let w := wrong.map fun k =>
+    let stored := match g.lookup k.1 with
+      | some ps => showNats "." ps
+      | none => "M"
+    s!"{k.1.1}.{k.1.2}={stored}>{showNats "." k.2}"
+  let u := (unreferenced st).mergeSort keyLe
+  s!"W:{joinWith "," w} U:{joinWith "," (u.map fun k => s!"{k.1}.{k.2}")}"
+
 def handle : List String → String
+  | ["recb", h] =>
+    match (if h == "-" then some [] else (h.splitOn "|").mapM parseCommitB) with
+    | some cs =>
+      let hs := cs.reverse
+      let hOk := decide (hist (hs.map (·.1)))
+      match buildB hs with
+      | some st =>
+        s!"H:{showBool hOk} R:{showBool (repsOk hs)} {joinWith "|" (st.reverse.map showInv)} {showTexts st} {showCheck st}"
+      | none => "undefined"
+    | none => "bad-op"
+  | ["chk", h] =>
+    match (if h == "-" then some [] else (h.splitOn "|").mapM parseRec) with
+    | some rs => showChk rs.reverse
+    | none => "bad-op"
   | ["rec", h] =>
     match parseHist h with
     | some cs =>
